@@ -335,32 +335,7 @@ def run(ctx):
     __import__("importlib").import_module("rules.c19").request_reaches_compiler(db, rep, "D14-EVERY-COMPILE-COMPILES")
 
     # ---- D4 ------------------------------------------------------------------
-    fn = db.func("orc_opcode_find_by_name", "orcopcode")
-    rep.saw(fn)
-    lps = [n for n in fn.walk() if n.k == "ForStmt"]
-    from loops import counted
-    cl4 = counted(lps[0]) if len(lps) == 1 else None
-    ok = cl4 is not None and cl4["dir"] == "asc" and cl4["first"] == (None, 0) and cl4["last"] == ("n_opcode_sets", -1)
-    rets = [r for r in fn.walk() if r.k == "ReturnStmt" and r.c and strip_casts(r.c[0]).v != 0]
-    ok = ok and rets and all(any(a is lps[0] for a in r.ancestors()) for r in rets)
-    rep.check(bool(ok), "D4-BUILTIN-FIRST", where(fn), "lookup-order", "sets are searched in registration order and the first hit is returned",
-              "orc_opcode_find_by_name no longer returns the first match in registration order")
-    oi = db.func("orc_init", "orc")
-    calls = [c for c in sorted(oi.calls(), key=lambda c: (c.line, c.id)) if c.name]
-    first_reg = None
-    from callgraph import CallGraph
-    cg = CallGraph(db)
-    for c in calls:
-        reach = {f.name for f in cg.reachable([c.name])}
-        if "orc_opcode_register_static" in reach:
-            first_reg = c.name
-            break
-    rep.check(first_reg == "orc_opcode_init", "D4-BUILTIN-FIRST", where(oi), "sys-registered-first",
-              "the first call in orc_init that can register an opcode set is orc_opcode_init (the sys set)",
-              "`%s` can register an opcode set before orc_opcode_init: built-in names no longer win the lookup" % first_reg)
-    si = db.func("orc_opcode_sys_init", "orcopcodes-sys")
-    ok = any(c.name == "orc_opcode_register_static" and strip_casts(c.args()[1]).get("str") == "sys" for c in si.calls())
-    rep.check(ok, "D4-BUILTIN-FIRST", where(si), "registers-sys", "orc_opcode_sys_init registers the table under the prefix \"sys\"", "the built-in table is no longer registered as \"sys\"")
+    d4_builtin_first(db, rep)
 
     # ---- D5 ------------------------------------------------------------------
     n5 = 0
@@ -782,3 +757,35 @@ def d13_staged_scalar_identity(db, rep, rule="D13-APP-SCALAR-UNALTERED"):
     if n < 1:
         raise AnalysisBroken("orc_executor_emulate: the lane scaling of staged scalars was not found")
     return n
+
+
+def d4_builtin_first(db, rep, rule="D4-BUILTIN-FIRST"):
+    """A name the built-in ("sys") table has resolves to the built-in entry: the sets are searched in registration order, the first
+    hit is returned, and sys is registered first.  (Shared with C13: the bytecode writer encodes an opcode as its index in the
+    sys table, so a same-named entry of an application set winning the lookup is serialised as a wild index.)"""
+    from loops import counted
+    fn = db.func("orc_opcode_find_by_name", "orcopcode")
+    rep.saw(fn)
+    lps = [n for n in fn.walk() if n.k == "ForStmt"]
+    cl4 = counted(lps[0]) if len(lps) == 1 else None
+    ok = cl4 is not None and cl4["dir"] == "asc" and cl4["first"] == (None, 0) and cl4["last"] == ("n_opcode_sets", -1)
+    rets = [r for r in fn.walk() if r.k == "ReturnStmt" and r.c and strip_casts(r.c[0]).v != 0]
+    ok = ok and rets and all(any(a is lps[0] for a in r.ancestors()) for r in rets)
+    rep.check(bool(ok), rule, where(fn), "lookup-order", "sets are searched in registration order and the first hit is returned",
+              "orc_opcode_find_by_name no longer returns the first match in registration order")
+    oi = db.func("orc_init", "orc")
+    calls = [c for c in sorted(oi.calls(), key=lambda c: (c.line, c.id)) if c.name]
+    first_reg = None
+    from callgraph import CallGraph
+    cg = CallGraph(db)
+    for c in calls:
+        reach = {f.name for f in cg.reachable([c.name])}
+        if "orc_opcode_register_static" in reach:
+            first_reg = c.name
+            break
+    rep.check(first_reg == "orc_opcode_init", rule, where(oi), "sys-registered-first",
+              "the first call in orc_init that can register an opcode set is orc_opcode_init (the sys set)",
+              "`%s` can register an opcode set before orc_opcode_init: built-in names no longer win the lookup" % first_reg)
+    si = db.func("orc_opcode_sys_init", "orcopcodes-sys")
+    ok = any(c.name == "orc_opcode_register_static" and strip_casts(c.args()[1]).get("str") == "sys" for c in si.calls())
+    rep.check(ok, rule, where(si), "registers-sys", "orc_opcode_sys_init registers the table under the prefix \"sys\"", "the built-in table is no longer registered as \"sys\"")
